@@ -3,6 +3,7 @@ import GoMailModel.Proofs.Wrap
 import GoMailModel.Proofs.QP
 import GoMailModel.Proofs.B64RT
 import GoMailModel.Proofs.Tree
+import GoMailModel.Proofs.ReaderInv
 import GoMailModel.Generated.Nesting
 /-
   C01 — Rendered MIME carries exactly the content the caller supplied.
@@ -132,6 +133,24 @@ theorem render_is_tree_all (s : MsgState) (e : Entropy)
       ((contentTree (defaultHeaders s e) (writeMsg s e false).2.bMixed (writeMsg s e false).2.bRelated (writeMsg s e false).2.bAlt
         (writeMsg s e false).2.embeds (writeMsg s e false).2.attachments).map Ent.serTop).flatten :=
   writeMsg_refines_all s e hp
+
+/-- **Every boundary delimits what it announces.** An RFC 2046 §5.1.1 body splitter written from the
+    grammar (`Reader.splitParts`: cut at every CRLF "--" boundary, the last delimiter must be the
+    closing one) applied to the body of a multipart entity as the writer serialises it returns exactly
+    the serialisations of the children, in order - for every boundary, every subtype and every list
+    of children in which the delimiter does not occur (freshness of the boundary). Together with
+    `render_is_tree_all` (the render IS the tree) and `tree_leaves` this is the structural half of the
+    property for every message; the leaf half is `qp_body_roundtrip` / `b64_body_roundtrip`. -/
+theorem boundary_delimits_children (st b : Bytes) (cs : List Ent) (hne : cs ≠ [])
+    (hf : ∀ c ∈ cs, Reader.Fresh (Reader.dl b) ([13, 10] ++ c.ser)) :
+    (Ent.multi st b cs).ser = multiHead st b ++ Reader.frame b (cs.map Ent.ser) ∧
+    Reader.splitParts b (Reader.frame b (cs.map Ent.ser)) = some (cs.map Ent.ser) :=
+  Reader.multipart_body_splits st b cs hne hf
+
+/-- non-vacuity: two leaves behind a boundary are found again; a part that contains the delimiter is not fresh -/
+example : Reader.splitParts (sb "XyZ") (Reader.frame (sb "XyZ") [sb "A: 1\r\n\r\nbody one", sb "B: 2\r\n\r\n--not-the-boundary"]) =
+    some [sb "A: 1\r\n\r\nbody one", sb "B: 2\r\n\r\n--not-the-boundary"] := by decide
+example : Reader.freshb (Reader.dl (sb "XyZ")) (sb "\r\nA: 1\r\n\r\nline\r\n--XyZ inside") = false := by decide
 
 /-- ... and whatever layers are present, the leaves of that tree are, in order: one per body part, one
     per embed, one per attachment. -/
